@@ -18,6 +18,7 @@ pub mod c17;
 pub mod c18;
 pub mod c19;
 pub mod common;
+pub mod scale;
 
 use crate::engine::{Check, Ctx, Report};
 use serde_json::Value;
